@@ -485,6 +485,8 @@ class C09(Spec):
         if risk:
             ndates = max(ndates, 18)
         fspec, fired = drive_engine.gen_feed(r, ndates, ntick, style=style, faults={"late_listing": 0.15})
+        if risk:
+            drive_engine.ensure_moving(fspec, r)
         dates, tickers = fspec["dates"], fspec["tickers"]
         for _ in range(20):
             cst = drive_engine.gen_stack(r, fspec, risk=risk, chaos=False, gated=True)
@@ -2000,8 +2002,7 @@ class C15(Spec):
         ntick = r.randint(3, 5)
         fspec, fired = drive_engine.gen_feed(r, ndates, ntick, style="bday", faults={"late_listing": 0.15}, spread_p=0.0)
         dates, tickers = fspec["dates"], fspec["tickers"]
-        for row in fspec["prices"]:  # risk algos need moving prices
-            pass
+        drive_engine.ensure_moving(fspec, r)  # risk algos need moving prices
         warm = 13
         extra = {}
         full = [t for j, t in enumerate(tickers) if all(row[j] is not None for row in fspec["prices"])] or tickers[:1]
